@@ -130,7 +130,9 @@ func xExpr(e xast.Expression) *Node {
 	case *xast.StringLiteral:
 		return strLit(xUnescape(e.Value))
 	case *xast.MultiStringLiteral:
-		return leaf("tpl", e.Value)
+		// the lexer removes the backslash of an escaped backtick and nothing else: the raw text is the value with
+		// every backtick escaped again
+		return leaf("tpl", strings.ReplaceAll(e.Value, "`", "\\`"))
 	case *xast.BooleanLiteral:
 		return leaf("bool", strconv.FormatBool(e.Value))
 	case *xast.NullLiteral:
